@@ -261,6 +261,55 @@ def decision_table(chk, tmp):
     return out
 
 
+def close_remove_sequences(chk, tmp, exprs, expected, meta):
+    """every sequence of up to three close() / remove() calls on a file object of every mode (named / temporary file): which
+    calls are refused and whether the file exists afterwards, against Glue.fobj_flat (Model/PTFile.fo_run)"""
+    import itertools
+    n = 0
+    for mi, mode in enumerate(("read", "write", "overwrite")):
+        for given in (False, True):
+            if mode == "read" and not given:
+                continue
+            for L in (1, 2, 3):
+                for ops in itertools.product((0, 1), repeat=L):
+                    fn = os.path.join(tmp, f"seq_{mode}_{int(given)}_{n}.hdf5")
+                    n += 1
+                    if mode == "read":
+                        seed = ptm.FileProcessTensor("write", fn, 2)
+                        seed.close()
+                        obj = ptm.FileProcessTensor("read", fn)
+                    else:
+                        obj = ptm.FileProcessTensor(mode, fn if given else None, 2)
+                    path = obj.filename
+                    obs = []
+                    for op in ops:
+                        refused = 0
+                        try:
+                            obj.close() if op == 0 else obj.remove()
+                        except FileExistsError:
+                            refused = 1
+                        except Exception as ex:
+                            if not os.path.exists(path) and op == 1:
+                                refused = 0           # removing a file that is already gone: not a refusal (FileNotFoundError)
+                            else:
+                                refused = 2
+                        obs += [refused, 1 if os.path.exists(path) else 0]
+                    if os.path.exists(path) and not path.startswith(tmp):
+                        os.remove(path)
+                    info = {"kind": "close-remove", "mode": mode, "filename_given": given, "ops": ["close" if o == 0 else "remove" for o in ops]}
+                    exprs.append(f"fobj_flat {mi} {'true' if given else 'false'} {coq_list([str(o) for o in ops])}")
+                    expected.append(obs)
+                    meta.append(info)
+                    chk.case(info, ("close-remove", mode, given, ops))
+                    chk.search_cases += 1
+                    # the property's own reading: never deleted unless entitled
+                    entitled = mode == "overwrite" or (mode == "write" and not given)
+                    if not entitled and 0 in obs[1::2]:
+                        chk.fail("remove-after-close", f"a mode '{mode}' object ({'named' if given else 'temporary'} file) deleted its file in the sequence {info['ops']} "
+                                 "although it is not entitled to", info)
+    chk.count("close_remove_sequences", n)
+
+
 def api_table(chk, tmp):
     """the same guards through the PT-TEMPO entry points (pt_tempo_compute, PtTempo): existing file x overwrite x unique"""
     import oqupy
@@ -449,6 +498,7 @@ def run(chk):
 
         leftover_files(chk, tmp)
         clean_closes(chk, tmp)
+        close_remove_sequences(chk, tmp, exprs, expected, meta)
 
         # (b) crash enumeration on the real writers
         jobs = []
@@ -551,6 +601,10 @@ def run(chk):
             ok = got is not None and len(got) == len(tab) and all(t == g or (i % 2 == 1 and t == -1) for i, (t, g) in enumerate(zip(tab, got)))
             if not ok:
                 chk.disagree("api decision table", {"meta": m, "impl": tab, "model": got})
+            continue
+        if m.get("kind") == "close-remove":
+            if got != exp:
+                chk.disagree("close / remove sequence", {"case": m, "impl [refused, exists]*": exp, "model": got})
             continue
         if m.get("kind") == "handfill":
             if got != exp:
